@@ -29,4 +29,30 @@ CHECKS = {
         "level_note": "Trusted: rustc's MIR and trait resolution; dependencies deterministic; each allow-table row's reason "
                       "(interactive listing/completion, run statistics, now()).",
     },
+    "C09": {
+        "modules": ["rules_c09"],
+        "explanation": "Site inventory over the MIR of every function reachable from the execution entry points (call graph with "
+                       "closure attribution and class-hierarchy resolution of trait calls on generic parameters): arithmetic "
+                       "Assert terminators (overflow, division by zero, bounds), calls into the may-panic API table (unwrap/expect, "
+                       "panic!/unreachable!/unimplemented!, Index on Vec/str/HashMap, Vec::remove/insert/drain, i64::pow/abs, chrono's "
+                       "panicking constructors and operators, sort on a non-total Ord) and narrowing/sign-changing `as` casts. Each site is "
+                       "an obligation: discharged mechanically, by a tabled reason whose guard is re-proved by edge dominance on every run, "
+                       "listed as known finding, or reported with file:line.",
+        "trusted": ["rustc nightly MIR + trait resolution", "tables/may_panic_api.json is complete for the APIs this crate calls",
+                    "tables/discharged.json rows without a `requires` clause are assumptions (listed in the evidence)"],
+        "technique": "static site inventory on MIR over the call-graph closure of the entry points; edge-dominance guard re-proving; tabled discharges",
+        "level_text": "Absence claim decided over all paths: no unlisted panic / wrap / truncation construct is reachable from the execution entry "
+                      "points. Does not decide termination, stack depth or panics inside dependencies.",
+        "level_note": "Trusted: MIR of the nightly front end; may-panic API table; each reason-only discharge row.",
+    },
+    "C14": {
+        "modules": ["rules_c14"],
+        "explanation": "Same site inventory as C09, rooted at the parsing entry points (parse, parse_into_tree, TableDefinition::new, "
+                       "TokenLocation::extract_near, error Display impls).",
+        "trusted": ["rustc nightly MIR + trait resolution", "tables/may_panic_api.json", "reason-only rows of tables/discharged.json"],
+        "technique": "static site inventory on MIR over the call-graph closure of the parsing entry points; edge-dominance guard re-proving; tabled discharges",
+        "level_text": "Absence claim decided over all paths of the parser/tokenizer/converter: no unlisted panic-capable construct is reachable. "
+                      "Recursion depth (stack exhaustion) and error-position correctness are not decided.",
+        "level_note": "Trusted: MIR of the nightly front end; may-panic API table; each reason-only discharge row.",
+    },
 }
